@@ -36,6 +36,9 @@ pub enum Op {
     PutK(u8, u8),
     /// delete `kk[KEYS[i]]`
     DelK(u8),
+    /// Marker (no effect in the rule): the command is sent with a WRONG parent max cut (right parent
+    /// id). A replica must refuse it without any trace.
+    BadParentCut,
 }
 
 /// Compound-key alphabet for the `kk` fact (prefixes of one another, empty components).
@@ -63,6 +66,7 @@ impl Op {
             Op::Emit(e) => out.extend([7, e]),
             Op::PutK(k, v) => out.extend([8, k, v]),
             Op::DelK(k) => out.extend([9, k]),
+            Op::BadParentCut => out.push(10),
         }
     }
     pub fn decode_all(mut b: &[u8]) -> Option<Vec<Op>> {
@@ -78,6 +82,7 @@ impl Op {
                 7 => (Op::Emit(*rest.first()?), 1),
                 8 => (Op::PutK(*rest.first()?, *rest.get(1)?), 2),
                 9 => (Op::DelK(*rest.first()?), 1),
+                10 => (Op::BadParentCut, 0),
                 _ => return None,
             };
             v.push(op);
@@ -278,7 +283,12 @@ impl Dag {
                 },
                 Kind::Basic(p) => Cmd {
                     id: ids[i],
-                    prior: Prior::Single(addr(n.parents[0])),
+                    prior: if n.prog.contains(&Op::BadParentCut) {
+                        let a = addr(n.parents[0]);
+                        Prior::Single(Address { id: a.id, max_cut: MaxCut::new(a.max_cut.get() + 5) })
+                    } else {
+                        Prior::Single(addr(n.parents[0]))
+                    },
                     priority: Priority::Basic(p),
                     policy: None,
                     data: encode_payload(&node_name(i), &n.prog),
